@@ -27,6 +27,9 @@ def sym_name(s):
     return f"{SYM_INFO.get(s, 's')}{s}"
 
 
+DROP_FM_MAX = 40
+
+
 class LinExpr:
     __slots__ = ('t', 'k', '_h')
 
@@ -379,7 +382,7 @@ class Store:
                     neg.append((-c, e))
                 else:
                     rest.add(e)
-            if pn[0] * pn[1] <= max(pn[0] + pn[1], 6):
+            if pn[0] * pn[1] <= max(pn[0] + pn[1], DROP_FM_MAX):
                 for cp, rp in pos:
                     for cn, rn in neg:
                         g = gcd(cp, cn)
